@@ -211,6 +211,9 @@ def dyn_params(draw, tier):
     p["vnorm"] = draw(st.sampled_from([1, 1, 0.5]))
     p["lab_seeds"] = [draw(st.integers(0, 2 ** 32 - 1)) for _ in range(2)]
     p["frac"] = draw(st.floats(0.1, 0.3))
+    # units of the unchanged series itself: pixel-like (1, 1), or SI-like (lengths x 1e-5, times x 1e3: junction
+    # speeds of order 1e-8, which the factor then takes below 1e-9)
+    p["base_units"] = draw(st.sampled_from([[0.0, 1.0], [0.0, 1.0], [-5.0, 1e3], [-3.0, 60.0]]))
     return p
 
 
@@ -251,6 +254,10 @@ def check_dynamic(p, ctx):
         if variant == "changed" and p["unit"] == "length":
             tissues = [tk.similarity(scale=f), t1.similarity(scale=f)]
             times = [0.0, dt]
+        bl, bt = p.get("base_units", [0.0, 1.0])
+        if bl != 0.0 or bt != 1.0:
+            tissues = [tt.similarity(scale=10.0 ** bl) for tt in tissues]
+            times = [x * bt for x in times]
         S = series.realise_series(tissues, nint, times, p["lab_seeds"], relabel=True)
         fsys = call(fs.ForSys, S.frames, cm=False)
         mp = core.mesh_of(fsys).mapping.get(0)
@@ -290,6 +297,8 @@ def check_dynamic(p, ctx):
                                  expected=float(out[0][worst]), detail={"ridge": worst, "tol": tol, "flip": flip,
                                                                        "factor": p["factor"]})
     ctx.count("dynamic:" + p["unit"])
+    if p.get("base_units", [0.0, 1.0])[0] != 0.0:
+        ctx.count("dynamic:SI-like-base-units")
     ctx.mark_nontrivial(p)
     ctx.sample({"params": p, "tol": tol, "max_diff": float(diff)}, cap=10)
 
